@@ -1,6 +1,6 @@
 (* C20: portfolio weights / returns against the valued balance.
    Ops (harness/c20.go):
-     C20.weights  observed = "<run csv> ## <run text>"        model = "OK <csv of the model>"
+     C20.weights  observed = "<run csv> ## <run text> ## <run text without -m>"        model = "OK <csv of the model>"
      C20.returns  observed = "<run>"                          model = "OK <lines of the repaired model>"
      C20.cross    observed = "<weights csv> ## <balance csv> ## <returns>"
                                                                model = "<weights> ## - ## <returns>"
@@ -135,15 +135,26 @@ let () =
     let model = weights_model cfg ds in
     let spec =
       match parts obs with
-      | [_csv; text] ->
+      | _csv :: text :: more ->
         (match ok_part text, partition_of cfg ds with
          | Some t, Some part ->
            let (dates, rows) = parse_text_table t in
            let ncols = nat_of_int (List.length dates) in
+           (* the table of the same command without -m: the mapping law (group = own folded commodities + members) *)
+           let mapping_law = lazy (
+             match more with
+             | [plain] ->
+               (match ok_part plain with
+                | Some pt ->
+                  let (pdates, prows) = parse_text_table pt in
+                  pdates = dates && K.mapping_law_b tol_weight ncols cfg.K.pc_mapping prows rows
+                | None -> false)
+             | _ -> true) in
            first_fail [
              (lazy (K.subset_b (List.map Drv_c11.parse_date dates) (K.end_dates part)), "a column is not dated with a period end");
              (lazy (K.top_ok_b tol_weight ncols rows), "top level does not sum to 100%");
-             (lazy (K.groups_ok_b tol_weight ncols rows), "a group is not the sum of its members");
+             (lazy (cfg.K.pc_mapping <> [] || K.groups_ok_b tol_weight ncols rows), "a group is not the sum of its members");
+             (mapping_law, "a row is not the sum of its member rows and the commodities the mapping folds into it (table without -m)");
              (lazy (K.leaf_unique_b (journal_commodities ds) rows), "a commodity has more than one row") ]
          | None, _ -> if String.length model >= 2 && String.sub model 0 2 = "OK" then "FAIL:command failed: " ^ text else "ok"
          | _, None -> "ok")
